@@ -172,6 +172,9 @@ pub async fn run_sender_with_config(
     // Run housekeeping once before entering the main event loop so we start in a clean state.
     {
         let classic = config.mode().is_classic();
+        // Housekeeping judges liveness against each link's own copy of the
+        // timeout; make it the configured one (see `sync_conn_timeout`).
+        srtla_core::selection::sync_conn_timeout(&mut connections, &config.snapshot());
         if let Err(err) = handle_housekeeping(
             &mut connections,
             &mut conn_io,
@@ -253,6 +256,9 @@ pub async fn run_sender_with_config(
                     }
                     _ = housekeeping_timer.tick() => {
                         let classic = config.mode().is_classic();
+                        // A tear-down must use the CONFIGURED liveness window even
+                        // when no packet has been routed since it was set.
+                        srtla_core::selection::sync_conn_timeout(&mut connections, &config.snapshot());
                         if let Err(err) = handle_housekeeping(
                             &mut connections,
                             &mut conn_io,
